@@ -111,8 +111,10 @@ func NewParser(srcPath, dstPath string) (*Parser, error) {
 	imports := util.NewImportNames(fileSrc.Imports)
 	// An import without an explicit name is referred to by the name of the package,
 	// which need not be the last element of its path (".../foo/v2" is package foo).
+	// (A blank import is listed under its package's name as well, so that notations can
+	// refer to a package that is imported for them only: _ ".../crypto/v2".)
 	for _, spec := range fileSrc.Imports {
-		if spec.Name != nil {
+		if spec.Name != nil && spec.Name.Name != "_" {
 			continue
 		}
 		path := strings.Trim(spec.Path.Value, "\"`")
